@@ -185,7 +185,7 @@ func (r *Report) Finish() int {
 			info := map[string]interface{}{"obligation": o.Name, "kind": o.Kind, "clause": o.Src, "status": o.Status, "solver": o.Solver,
 				"solver_output": truncate(o.Output, 4000), "smt2": o.File, "model": o.Model}
 			suffix := " no-failing-input-found"
-			if (o.Status == "failed" || (o.Bounded && nBoundedReplays < 3)) && !o.Cover {
+			if ((o.Status == "failed" && !o.Bounded) || (o.Bounded && nBoundedReplays < 3)) && !o.Cover {
 				if o.Bounded {
 					nBoundedReplays++
 				}
@@ -373,7 +373,7 @@ func oneLine(s string) string {
 func matchKnown(known []knownFinding, prop, obl string) *knownFinding {
 	for i := range known {
 		k := &known[i]
-		if k.Kind == "finding" && k.Prop == prop && k.Obl == obl {
+		if k.Kind == "finding" && k.Prop == prop && (k.Obl == obl || k.Obl == stripPathSuffix(obl)) {
 			return k
 		}
 	}
@@ -395,4 +395,19 @@ func (r *Report) writeReplay(dir, name string, info map[string]interface{}) stri
 	b, _ := json.MarshalIndent(info, "", " ")
 	os.WriteFile(p, b, 0644)
 	return p
+}
+
+// stripPathSuffix removes the ".path<N>" suffix of a bounded symbolic obligation name (path numbers
+// depend on the enumeration order; a finding may be recorded for the check on every path).
+func stripPathSuffix(name string) string {
+	k := strings.LastIndex(name, ".path")
+	if k < 0 {
+		return name
+	}
+	for _, c := range name[k+5:] {
+		if c < '0' || c > '9' {
+			return name
+		}
+	}
+	return name[:k]
 }
